@@ -117,6 +117,9 @@ func (ds *Dataset) StartFullSyncWithLease(fullSyncID string) error {
 		return err
 	}
 
+	// a client's sync is bound to a lease from its start, also when the client gave no sync id: a sync without a
+	// lease is taken for a job's, which no end request completes (it looks for the lease) and which never runs out
+	ds.fullSyncLease = &fullSyncLease{}
 	return ds.RefreshFullSyncLease(fullSyncID)
 }
 
